@@ -1,5 +1,50 @@
 (* C18 — admission responses faithfully reflect handler outcomes and requested mutations.
-   Only statements here; proofs in Proofs/{Admission,MergeDsl,JsonPatch}.v. *)
+   Only statements here; proofs in Proofs/{Admission,MergeDsl,JsonPatch}.v.
+
+   CLAUSE AUDIT (statement and quantifier of properties.jsonl, C18)
+   ---------------------------------------------------------------------------------------------------------------
+   clause                                          | status
+   ------------------------------------------------+--------------------------------------------------------------
+   a response is produced at all (implicit)        | FULL  C18_response_exact (every mapping-rooted object, every
+                                                   |       well-formed patch content, fns, handlers, outcomes)
+   allowed iff no selected handler raised          | REFUTED C18_allowed_iff_no_exception_refuted (finding F18a) +
+                                                   |   EXACT for every handler set: C18_allowed_exact (allowed iff no
+                                                   |   handler that is the LAST of its id raised), C18_outcomes_exact;
+                                                   |   unguarded halves C18_no_raise_allowed, C18_denied_raised;
+                                                   |   guarded corollary C18_allowed_iff_no_exception_partial;
+                                                   |   build_response level FULL: C18_allowed_iff_no_outcome_exception
+   message/code of the most specific error         | FULL at build_response level: C18_most_specific_error (+ unique:
+   (admission, permanent, temporary, other)        |   C18_first_min_unique), C18_rank_table, C18_code_default,
+                                                   |   C18_message; per selected handlers EXACT: C18_status_exact
+                                                   |   (errors kept per F18a), guarded C18_most_specific_error_served
+   warnings returned in order                      | FULL  C18_warnings_in_order
+   only handlers matching the webhook id,          | FULL for id / reason / subresource / filters (filters = one
+   operation, subresource and filters run          |   oracle boolean, property C15): C18_selection_rule,
+                                                   |   C18_selection; "operation": REFUTED
+                                                   |   C18_selection_operation_refuted (finding F18b), the code's
+                                                   |   rule being C18_selection_rule
+   mutating ones not on DELETE unless opted in     | FULL  C18_mutating_on_delete (opt-in = declared for DELETE only)
+   returned JSON patch applied to the reviewed     | FULL modulo two oracle laws: C18_patch_fidelity (law of
+   object yields the requested changes and the     |   jsonpatch.from_diff: hypothesis; fails for the installed
+   transformations                                 |   library on some list changes = finding F18d, validated per
+                                                   |   case) and C18_patch_received (law of the wire encoding:
+                                                   |   hypothesis, validated per response)
+   ... set, overwrite, delete, recursive merge,    | FULL  C18_requested_changes (the result at EVERY path),
+   type changes; nothing else changes              |   C18_clauses (set/overwrite, delete, mapping node, untouched),
+                                                   |   C18_clause_cases (every path falls under one clause),
+                                                   |   C18_dsl_is_merge (= RFC 7386 merge leaf for leaf)
+   ... up to the presence of empty mappings        | FULL  statements are about leaf_at (non-mapping values at paths);
+                                                   |   C18_prune_invisible relates it to removing empty mappings
+   ... special characters in keys                  | FULL for the pointer syntax: C18_pointer_roundtrip,
+                                                   |   C18_special_keys; the library's use of it: inside the law
+   handlers' requests reach the patch content      | FULL for one write: C18_write_recorded (Patch / view item
+   (Patch.__setitem__, views)                      |   assignment = dicts.ensure); the content itself is the
+                                                   |   quantified input of the fidelity theorems
+   reviewed object = new object, else old object   | monitored + tied only (harness: source of from_diff must be it)
+   exception -> outcome (errors=None, PERMANENT)   | model assumption (the raised exception itself is the outcome),
+                                                   |   tied by D:outcomes / D:response; classification is C11's
+   find_resource, envelope versions, servers       | not covered (outside the property)
+   --------------------------------------------------------------------------------------------------------------- *)
 From Coq Require Import ZArith List String Bool Ascii.
 From KV Require Import Base.Json Base.Dicts Model.JsonPatch Model.MergeDsl Model.Admission
                        Proofs.JsonPatch Proofs.MergeDsl Proofs.Admission.
@@ -33,6 +78,61 @@ Theorem C18_allowed_iff_no_exception_partial : forall from_diff uid c hs run pat
   (r_allowed r = true <-> forall h, In h (select_webhooks c hs) -> snd (run h) = None).
 Proof. exact serve_allowed_partial. Qed.
 Print Assumptions C18_allowed_iff_no_exception_partial.
+
+(* EXACTLY which outcomes reach build_response, for every list of selected handlers (no guard): per id, in order of
+   first occurrence, the outcome of the LAST selected handler carrying that id. *)
+Theorem C18_outcomes_exact : forall run sel, collect_outcomes run sel = effective_outcomes run sel.
+Proof. exact collect_outcomes_exact. Qed.
+Print Assumptions C18_outcomes_exact.
+
+(* allowed, exactly, for EVERY handler set, cause, behaviour, patch and diff function *)
+Theorem C18_allowed_exact : forall from_diff uid c hs run patch fns body r,
+  serve from_diff uid c hs run patch fns body = Ok r ->
+  (r_allowed r = true <->
+   forall h, In h (select_webhooks c hs) -> last_by_id (h_id h) (select_webhooks c hs) = Some h -> snd (run h) = None).
+Proof. exact serve_allowed_exact. Qed.
+Print Assumptions C18_allowed_exact.
+
+(* the two halves of "allowed iff nothing raised" that hold without any guard *)
+Theorem C18_no_raise_allowed : forall from_diff uid c hs run patch fns body r,
+  serve from_diff uid c hs run patch fns body = Ok r ->
+  (forall h, In h (select_webhooks c hs) -> snd (run h) = None) -> r_allowed r = true.
+Proof. exact serve_no_raise_allowed. Qed.
+Print Assumptions C18_no_raise_allowed.
+
+Theorem C18_denied_raised : forall from_diff uid c hs run patch fns body r,
+  serve from_diff uid c hs run patch fns body = Ok r ->
+  r_allowed r = false -> exists h, In h (select_webhooks c hs) /\ snd (run h) <> None.
+Proof. exact serve_denied_raised. Qed.
+Print Assumptions C18_denied_raised.
+
+(* message and code, exactly, for every handler set: the first error of minimal rank among the KEPT outcomes *)
+Theorem C18_status_exact : forall from_diff uid c hs run patch fns body r,
+  serve from_diff uid c hs run patch fns body = Ok r ->
+  let kept := errors_of (effective_outcomes run (select_webhooks c hs)) in
+  (kept = [] -> r_status r = None) /\
+  (kept <> [] -> exists e, first_min kept e /\ r_status r = Some (message e, code e)).
+Proof. exact serve_status_exact. Qed.
+Print Assumptions C18_status_exact.
+
+(* A response is ALWAYS produced for a mapping-rooted reviewed object and a well-formed patch content, and every field
+   of it is determined: nothing else influences it (e.g. the patch does not depend on the outcomes, allowed does not
+   depend on the patch). *)
+Theorem C18_response_exact : forall from_diff uid c hs run patch fns body,
+  is_obj patch = true -> wf patch = true -> is_obj body = true ->
+  exists ops, as_json_patch from_diff patch fns body = Ok ops /\
+    serve from_diff uid c hs run patch fns body =
+    Ok {| r_uid := uid;
+          r_allowed := forallb (fun kv => match snd kv with None => true | Some _ => false end)
+                               (effective_outcomes run (select_webhooks c hs));
+          r_warnings := match flat_map (fun h => fst (run h)) (select_webhooks c hs) with [] => None | ws => Some ws end;
+          r_patch := match ops with [] => None | _ => Some ops end;
+          r_status := match sort_errors (errors_of (effective_outcomes run (select_webhooks c hs))) with
+                      | e :: _ => Some (message e, code e)
+                      | [] => None
+                      end |}.
+Proof. exact serve_total_exact. Qed.
+Print Assumptions C18_response_exact.
 
 (* ---- message and code come from the most specific error ---- *)
 
@@ -138,6 +238,40 @@ Theorem C18_dsl_is_merge : forall p body,
   exists b', apply_dsl p body = Ok b' /\ forall q, leaf_at b' q = leaf_at (merge body p) q.
 Proof. exact dsl_is_merge. Qed.
 Print Assumptions C18_dsl_is_merge.
+
+(* The result at EVERY path, in closed form: an untouched path keeps the object's value; a non-null leaf of the patch is
+   there (and nothing below it); nothing at or below a null; a mapping node of the patch is a mapping. *)
+Theorem C18_requested_changes : forall p body,
+  is_obj p = true -> wf p = true -> is_obj body = true ->
+  exists b', apply_dsl p body = Ok b' /\ forall q, leaf_at b' q = requested p body q.
+Proof. exact dsl_requested. Qed.
+Print Assumptions C18_requested_changes.
+
+(* the same, clause by clause: set / overwrite, delete, recursive merge (mapping nodes), and what must NOT change *)
+Theorem C18_clauses : forall p body,
+  is_obj p = true -> wf p = true -> is_obj body = true ->
+  exists b', apply_dsl p body = Ok b' /\
+    (forall q v r, resolve p q = Some v -> is_obj v = false -> v <> JNull -> leaf_at b' (q ++ r) = leaf_at v r) /\
+    (forall q r, resolve p q = Some JNull -> leaf_at b' (q ++ r) = None) /\
+    (forall q o, resolve p q = Some (JObj o) -> leaf_at b' q = None) /\
+    (forall q, untouchedb p q = true -> leaf_at b' q = leaf_at body q).
+Proof. exact dsl_clauses. Qed.
+Print Assumptions C18_clauses.
+
+(* every path is untouched, at or below a leaf (set or null) of the patch, or a mapping node of it *)
+Theorem C18_clause_cases : forall p q,
+  untouchedb p q = true \/
+  (exists q1 r v, q = q1 ++ r /\ resolve p q1 = Some v /\ is_obj v = false) \/
+  (exists o, resolve p q = Some (JObj o)) \/
+  (q = [] /\ is_obj p = false).
+Proof. exact clause_cases. Qed.
+Print Assumptions C18_clause_cases.
+
+(* a handler's item / view assignment (dicts.ensure on the Patch) that does not raise is in the content *)
+Theorem C18_write_recorded : forall writes q v,
+  q <> [] -> (exists c, ensure (content_of writes) q v = Ok c) -> resolve (content_of (writes ++ [(q, v)])) q = Some v.
+Proof. exact last_write_recorded. Qed.
+Print Assumptions C18_write_recorded.
 
 (* removing empty mappings does not change what leaf_at observes *)
 Theorem C18_prune_invisible : forall j, wf j = true -> forall q, leaf_at (prune j) q = leaf_at j q.
